@@ -255,7 +255,7 @@ CHECKS["C20"] = {
 }
 
 CHECKS["C14"] = {
-    "explanation": "Symbolic execution of listSuperiors/listInferiors on symbolic names (every name of bounded length over an alphabet containing the delimiter, both delimiters) and of State.{Create,Delete,Rename,Subscribe,Unsubscribe} (with actionCreateMailbox, actionUpdateMailbox, actionDeleteMailbox, renameInbox) on the relational model for symbolic command histories over a pool of well- and ill-formed names, compared after every command with the reference hierarchy model (DESIGN appendix A.5).",
+    "explanation": "Symbolic execution of listSuperiors/listInferiors on symbolic names (every name of bounded length over an alphabet containing the delimiter, both delimiters) and of State.{Create,Delete,Rename,Subscribe,Unsubscribe} (with actionCreateMailbox, actionUpdateMailbox, actionDeleteMailbox, renameInbox) on the relational model for symbolic command histories over a pool of well- and ill-formed names, compared after every command with the reference hierarchy model (DESIGN appendix A.5). VerifC14List / VerifC14Lsub: LIST over every subset of a name pool x references x 16 patterns, LSUB over every combination of {absent, subscribed, unsubscribed, deleted but still subscribed} x 8 patterns, compared with RFC 3501 wildcard matching over the names and their superiors (regexp on the concrete strings is delegated to the Go library). VerifC14Decode (internal/session): mailbox-name normalisation for the delimiters '/', '.', NIL.",
     "harnesses": [
         {"name": "paths", "pkg": "internal/state", "pkgname": "state", "entry": "VerifC14Paths",
          "files": ["zz_verif_c14.go", "zz_verif_c17.go"] + STATE_FILES, "with": ["verifdb"], "gen_stubs": [TX_STUB],
@@ -266,11 +266,14 @@ CHECKS["C14"] = {
         {"name": "list", "pkg": "internal/state", "pkgname": "state", "entry": "VerifC14List",
          "files": ["zz_verif_c14.go", "zz_verif_c17.go"] + STATE_FILES, "with": ["verifdb"], "gen_stubs": [TX_STUB],
          "params": {"quick": [{}], "thorough": [{}]}, "cover": ["list-done"]},
+        {"name": "lsub", "pkg": "internal/state", "pkgname": "state", "entry": "VerifC14Lsub",
+         "files": ["zz_verif_c14.go", "zz_verif_c17.go"] + STATE_FILES, "with": ["verifdb"], "gen_stubs": [TX_STUB],
+         "params": {"quick": [{}], "thorough": [{}]}, "cover": ["lsub-done"]},
         {"name": "decode", "pkg": "internal/session", "pkgname": "session", "entry": "VerifC14Decode", "files": ["zz_verif_c14.go"],
          "with": ["backend_export", "state_export", "verifdb"], "params": {"quick": [{}], "thorough": [{}]}, "cover": ["decoded"]},
     ],
     "stubs": ["internal/verifdb relational model (UNIQUE name / remote id)", "state.Connector stub: CreateMailbox returns a fresh remote id"],
-    "outside": ["the regexp engine itself (match() compiles the pattern to a regexp: on the concrete names and patterns of the list harness it is delegated to the Go library the engine is linked with)", "LSUB with deleted-but-subscribed names", "modified UTF-7 names beyond ASCII", "connector-side mailbox updates (see C06)"],
+    "outside": ["the regexp engine itself (match() compiles the pattern to a regexp: on the concrete names and patterns of the list harness it is delegated to the Go library the engine is linked with)", "LSUB with a non-empty reference", "modified UTF-7 names beyond ASCII", "connector-side mailbox updates (see C06)"],
     "assumptions": [],
 }
 
